@@ -36,6 +36,25 @@ def either(*ts):
   return ('either',) + tuple(flat)
 
 
+def unpackable(t):
+  """alternatives of a term that can be unpacked / indexed: a literal None among several alternatives contributes no
+  value (the operation raises on it), so it is left out."""
+  alts = alternatives(t)
+  some = [a for a in alts if a != ('const', None)]
+  return some if some else alts
+
+
+def _terminates(stmts):
+  if not stmts:
+    return False
+  last = stmts[-1]
+  if isinstance(last, (ast.Return, ast.Continue, ast.Break, ast.Raise)):
+    return True
+  if isinstance(last, ast.If):
+    return bool(last.orelse) and _terminates(last.body) and _terminates(last.orelse)
+  return False
+
+
 def alternatives(t):
   if t is None:
     return []
@@ -81,7 +100,7 @@ class SymEval(object):
         k = n.slice.value
         if isinstance(k, int):
           outs = []
-          for alt in alternatives(b):
+          for alt in unpackable(b):
             if alt[0] in ('tuple', 'list') and -(len(alt) - 1) <= k < len(alt) - 1:
               outs.append(alt[1:][k])
             else:
@@ -201,7 +220,7 @@ class SymEval(object):
       n = len(t.elts)
       for i, e in enumerate(t.elts):
         outs = []
-        for alt in alternatives(v):
+        for alt in unpackable(v):
           if alt[0] in ('tuple', 'list') and len(alt) - 1 == n:
             outs.append(alt[1 + i])
           else:
@@ -240,8 +259,14 @@ class SymEval(object):
       e1, e2 = dict(env), dict(env)
       self.run(s.body, e1, fn, sink, out, depth, loops)
       self.run(s.orelse, e2, fn, sink, out, depth, loops)
+      t1, t2 = _terminates(s.body), _terminates(s.orelse)
       for k in set(e1) | set(e2):
-        env[k] = either(e1.get(k, ('param', k)), e2.get(k, ('param', k)))
+        if t1 and not t2:
+          env[k] = e2.get(k, ('param', k))
+        elif t2 and not t1:
+          env[k] = e1.get(k, ('param', k))
+        else:
+          env[k] = either(e1.get(k, ('param', k)), e2.get(k, ('param', k)))
       return
     if isinstance(s, (ast.For, ast.AsyncFor)):
       self._calls(s.iter, env, fn, sink, out, depth, loops)
